@@ -311,6 +311,32 @@ SB_extends(SB* self, PyObject* other)
     Py_RETURN_FALSE;
 }
 
+/* ``self in decl._implied`` for a declaration that is not one of our
+   specifications with an ``_implied`` slot, e.g. a security proxy: use its
+   ``_implied`` if it lets us, otherwise go the long way around and call it,
+   like ``SpecificationBase.providedBy`` in Python.  Returns a new reference. */
+static PyObject*
+_foreign_decl_implies(PyObject* decl, PyObject* self)
+{
+    PyObject* implied;
+    int contains;
+
+    implied = PyObject_GetAttrString(decl, "_implied");
+    if (implied == NULL) {
+        if (!PyErr_ExceptionMatches(PyExc_AttributeError))
+            return NULL;
+        PyErr_Clear();
+        return PyObject_CallFunctionObjArgs(decl, self, NULL);
+    }
+    contains = PySequence_Contains(implied, self);
+    Py_DECREF(implied);
+    if (contains < 0)
+        return NULL;
+    if (contains)
+        Py_RETURN_TRUE;
+    Py_RETURN_FALSE;
+}
+
 static PyObject*
 SB__call__(SB* self, PyObject* args, PyObject* kw)
 {
@@ -339,13 +365,14 @@ SB_providedBy(PyObject* self, PyObject* ob)
     if (decl == NULL)
         return NULL;
 
-    if (PyObject_TypeCheck(decl, specification_base_class))
+    if (PyObject_TypeCheck(decl, specification_base_class) &&
+        ((SB*)decl)->_implied != NULL)
         item = SB_extends((SB*)decl, self);
     else
         /* decl is probably a security proxy.  We have to go the long way
            around.
         */
-        item = PyObject_CallFunctionObjArgs(decl, self, NULL);
+        item = _foreign_decl_implies(decl, self);
 
     Py_DECREF(decl);
     return item;
@@ -370,10 +397,11 @@ SB_implementedBy(PyObject* self, PyObject* cls)
     if (decl == NULL)
         return NULL;
 
-    if (PyObject_TypeCheck(decl, specification_base_class))
+    if (PyObject_TypeCheck(decl, specification_base_class) &&
+        ((SB*)decl)->_implied != NULL)
         item = SB_extends((SB*)decl, self);
     else
-        item = PyObject_CallFunctionObjArgs(decl, self, NULL);
+        item = _foreign_decl_implies(decl, self);
 
     Py_DECREF(decl);
     return item;
@@ -757,16 +785,11 @@ IB__adapt__(PyObject* self, PyObject* obj)
 
     specification_base_class = _get_specification_base_class(Py_TYPE(self));
 
-    if (PyObject_TypeCheck(decl, specification_base_class)) {
+    if (PyObject_TypeCheck(decl, specification_base_class) &&
+        ((SB*)decl)->_implied != NULL) {
         PyObject* implied;
 
         implied = ((SB*)decl)->_implied;
-        if (implied == NULL) {
-            Py_DECREF(decl);
-            PyErr_SetString(PyExc_AttributeError, "_implied");
-            return NULL;
-        }
-
         Py_INCREF(implied);
         implements = PySequence_Contains(implied, self);
         Py_DECREF(implied);
@@ -778,7 +801,7 @@ IB__adapt__(PyObject* self, PyObject* obj)
            around.
         */
         PyObject* r;
-        r = PyObject_CallFunctionObjArgs(decl, self, NULL);
+        r = _foreign_decl_implies(decl, self);
         Py_DECREF(decl);
         if (r == NULL)
             return NULL;
